@@ -537,6 +537,56 @@ def run_gate(res, ctx, vals, vlist, lines, impl_out, vseed, only=None):
 # directed probe: the recursion boundary of json.dumps
 # --------------------------------------------------------------------------
 
+def generator_path(res, vals, vlist):
+    """
+    Oracle-only: events produced by the receiver's own event generator (`gen_event`) enter through the same gate as
+    everything else — a generated event whose data the validator rejects must not be published, an accepted one is
+    published exactly once as the same object.
+    """
+    from bobocep.cep.gen.event import BoboGenEvent
+
+    class OneShot(BoboGenEvent):
+        def __init__(self, data):
+            self.data, self.done = data, False
+
+        def maybe_generate(self, event_id):
+            if self.done:
+                return None
+            self.done = True
+            self.ev = BoboEventSimple(event_id, 1, self.data)
+            return self.ev
+
+    for ventry in vlist:
+        name, v = ventry[0], ventry[3]
+        for (handle, value) in [(x[0], x[1]) if isinstance(x, tuple) else (repr(x)[:40], x) for x in vals[:60]]:
+            try:
+                expect = v.is_valid(value)
+            except Exception:
+                continue
+            gen = OneShot(value)
+            rec = BoboReceiver(v, IdGen(), TsGen(), gen_event=gen)
+            sub = Recorder()
+            rec.subscribe(sub)
+            try:
+                rec.update()
+                rec.update()
+            except Exception:
+                continue
+            got = [e for e in getattr(sub, 'events', getattr(sub, 'seen', []))]
+            res.add_case({'kind': 'generator', 'validator': name, 'value': handle}, nontrivial=True)
+            res.count('generator_path_cases')
+            if (not expect) and got:
+                res.violations.append(Violation('gate-rejected-published',
+                                                f"{name} rejects {handle}, yet the receiver published the event its generator produced with that data",
+                                                {'kind': 'generator', 'validator': name, 'value': handle}))
+                return
+            if expect and (len(got) != 1 or got[0] is not gen.ev):
+                res.violations.append(Violation('gate-accepted-not-once',
+                                                f"{name} accepts {handle}; the generated event was published {len(got)} times / not as the same object",
+                                                {'kind': 'generator', 'validator': name, 'value': handle}))
+                return
+
+
 def recursion_window(res, make=deep_list, name='list'):
     """largest nesting depth the JSONable validator accepts (bisection), then the serialisers on the
     accepted depths just below it."""
@@ -604,6 +654,8 @@ def run(ctx: Ctx) -> Result:
         verdict_cases(res, vals, vlist, lines, impl_out, only)
     if only is None or only.get('kind') == 'gate':
         run_gate(res, ctx, vals, vlist, lines, impl_out, vseed, only)
+    if only is None or only.get('kind') == 'generator':
+        generator_path(res, vals, vlist)
     if only is None or only.get('kind') == 'recursion-window':
         recursion_window(res, deep_list, 'list')
         if ctx.thorough:
